@@ -89,13 +89,13 @@ func (p *vChain) mult() int64 {
 			if r == 0 {
 				p.fail(false)
 			} else {
-				l = vQuoInt(l, r)
+				l = l / r // Go's truncated division; MinInt64 / -1 wraps
 			}
 		case "%":
 			if r == 0 {
 				p.fail(false)
 			} else {
-				l = vRemInt(l, r)
+				l = l % r
 			}
 		}
 	}
@@ -241,7 +241,13 @@ func VH_C02_pairs() {
 	if nops == 3 {
 		ops[2] = vC02ChainOps[vChoice("op3", len(vC02ChainOps))]
 	}
-	negMask := vChoice("neg", 4) // which of the first two right-hand operands carries a unary minus
+	// which of the first two right-hand operands carries a unary minus (quick: none or both)
+	negMask := 0
+	if nops == 3 {
+		negMask = vChoice("neg", 4)
+	} else {
+		negMask = 3 * vChoice("neg", 2)
+	}
 	ws := vChoice("ws", 2)
 	sep := " "
 	if ws == 1 {
@@ -274,9 +280,6 @@ func VH_C02_pairs() {
 	src := sb.String()
 	if ws == 1 {
 		// skip spellings whose token boundaries are ambiguous without blanks
-		for i := 0; i+1 < len(ops); i++ {
-			_ = i
-		}
 		for _, o := range ops {
 			if o == "&" || o == "|" || o == "&&" || o == "||" || o == "??" {
 				return
